@@ -503,7 +503,19 @@ def _run_concurrent(world, idx, op):
         _viol(world, 'O5', idx, name, a,
               'calls without randomness in their contract advanced the '
               'global RNG')
-    # ---- O8 every call gives the result of the call made alone
+    # ---- O8 every call gives the result of the call made alone.  Deciding
+    # only when the two callers share no object: then nothing but hidden
+    # module-level state can couple them, which the property forbids.  Two
+    # threads inside one shared trainer / aligner are outside the property's
+    # quantifier (it speaks of sequences of calls on a reused object): a
+    # mismatch there is recorded as by-catch, never as a violation.
+    def _viol8(world_, oracle, idx_, name_, a_, detail, **kw):
+        if shared:
+            world.count('bycatch:shared_object_interleaving_mismatch')
+            world.add('bycatch_shared_object_interleaving', detail[:200])
+        else:
+            _viol(world_, oracle, idx_, name_, a_, detail, **kw)
+
     for i, (out, ref) in enumerate(zip(outs, refs)):
         if world.violations:
             break
@@ -513,12 +525,12 @@ def _run_concurrent(world, idx, op):
         if out.kind in ('skipped', 'interrupted'):
             continue      # no model in this pool / this caller was crashed
         if out.kind == 'impure':
-            _viol(world, 'O8', idx, name, a, f'{labels[i]}: {out.exc}')
+            _viol8(world, 'O8', idx, name, a, f'{labels[i]}: {out.exc}')
         elif out.cls() != ref.cls():
             if out.kind == 'raised' and prior_other_dim:
                 world.count('probe:dimension_reject_path')
                 continue
-            _viol(world, 'O8', idx, name, a,
+            _viol8(world, 'O8', idx, name, a,
                   f'{labels[i]} called while another caller thread runs '
                   f'{other} ({how}) gives {out.cls()}'
                   + (f' ({str(out.exc)[:160]})' if out.exc else '')
@@ -527,7 +539,7 @@ def _run_concurrent(world, idx, op):
         elif out.kind == 'ok':
             d = dg.first_difference(out.value, ref.value, 'result')
             if d:
-                _viol(world, 'O8', idx, name, a,
+                _viol8(world, 'O8', idx, name, a,
                       f'{labels[i]} called while another caller thread runs '
                       f'{other} ({how}) differs from the same call made '
                       f'alone: {d}', switches=len(il.switches))
@@ -1431,10 +1443,19 @@ def _preempt_worker(pair, first, positions):
                              'schedule': [int(k)], 'first': first,
                              'share': 'shared'}}]}
         r = execute(program)
-        res.append((k, r['violations'],
+        viols, prog = r['violations'], program
+        # the same pre-emption with objects of their own: deciding for O8
+        program2 = copy.deepcopy(program)
+        program2['ops'][0]['a']['share'] = 'separate'
+        r2 = execute(program2)
+        if r2['violations'] and not viols:
+            viols, prog = r2['violations'], program2
+        res.append((k, viols,
                     r['counters'].get('context_switches', 0),
                     r['sets'].get('preemption_sites', []),
-                    program if r['violations'] else None))
+                    prog if viols else None,
+                    r['counters'].get(
+                        'bycatch:shared_object_interleaving_mismatch', 0)))
     return res
 
 
@@ -1518,10 +1539,11 @@ def fixed_catalogue(tier, workers, log):
                 for v in viols:
                     v = dict(v, enumerated_position=n)
                     violations.append((-1, program, v))
-        pre_total = pre_switched = 0
+        pre_total = pre_switched = pre_bycatch = 0
         pre_sites = set()
         for f in pre_futs:
-            for k, viols, switched, psites, program in f.result():
+            for k, viols, switched, psites, program, byc in f.result():
+                pre_bycatch += byc
                 pre_total += 1
                 pre_switched += 1 if switched else 0
                 pre_sites.update(psites)
@@ -1546,17 +1568,22 @@ def fixed_catalogue(tier, workers, log):
         f'{len(violations)} violations, {time.time() - t0:.1f}s')
     log(f'# C20 fixed catalogue: {len(pairs)} pairs of calls, {pre_total} '
         f'single pre-emption points enumerated ({pre_switched} switched, '
-        f'{len(pre_sites)} distinct file:line sites)')
+        f'{len(pre_sites)} distinct file:line sites; by-catch: '
+        f'{pre_bycatch} shared-object mismatches)')
     return {
         'coverage': {'preemption_enumeration': {
-            'exhaustive_over': 'for each catalogue pair of calls on shared '
-                               'trainer / aligner objects and each of the two '
-                               'callers: every number k of Python line events '
-                               'inside pb_bss after which the caller is '
+            'exhaustive_over': 'for each catalogue pair of calls and each of the '
+                               'two callers: every number k of Python line '
+                               'events inside pb_bss after which the caller is '
                                'pre-empted, the other caller runs its whole '
-                               'call, the first one finishes (O1, O5, O6, O8)',
+                               'call, the first one finishes -- once with '
+                               'objects of their own (O1, O5, O6, O8 deciding) '
+                               'and once sharing trainer / aligner objects '
+                               '(O1, O5, O6 deciding, result mismatches '
+                               'recorded as by-catch)',
             'pairs': len(pairs), 'positions': pre_total,
             'switched': pre_switched, 'distinct_sites': len(pre_sites),
+            'bycatch_shared_object_mismatches': pre_bycatch,
             'per_entry': pre_entries,
         }, 'interrupt_enumeration': {
             'exhaustive_over': 'every Python line event inside pb_bss of '
